@@ -7,4 +7,21 @@ ExportStrings == (Mode = "strings" /\ ts # <<>> /\ ts[Len(ts)] # "NL") =>
 ExportTrees == (Mode = "trees" /\ done) =>
    \A l \in Layouts : LET r == RenderL(Top, l) IN
       PrintT(<<"TREE", ToJson([ts |-> r, layout |-> l, d |-> Denote(r, FALSE), shape |-> Shape(Top)])>>)
+\* near misses: every rendering with one token deleted, or one operator / parenthesis / line break inserted - the
+\* strings on which a parser is most likely to accept too much
+InsertAt(r, i, x) == SubSeq(r, 1, i - 1) \o x \o SubSeq(r, i, Len(r))
+Insertions == {<<"&&">>, <<"||">>, <<"(">>, <<")">>, <<"!">>, <<"NL">>, <<"NL", "&&">>, <<"NL", "||">>, <<"&&", "NL">>,
+               <<"NL", ")">>}
+DeleteAt(r, i) == SubSeq(r, 1, i - 1) \o SubSeq(r, i + 1, Len(r))
+NearRec(t) == [ts |-> t, strict |-> Denote(t, FALSE), lenient |-> Denote(t, TRUE)]
+ReplaceAt(r, i, x) == SubSeq(r, 1, i - 1) \o x \o SubSeq(r, i + 1, Len(r))
+NearRenderings == {RenderL(Top, <<"min", "none">>), RenderL(Top, <<"all", "none">>), RenderL(Top, <<"outer", "none">>),
+                   Wrap(RenderL(Top, <<"outer", "none">>), "none")}          \* the last: redundant double parentheses
+ExportNear == (Mode = "trees" /\ done) =>
+   \A r \in NearRenderings :
+      /\ \A i \in 1..Len(r) : PrintT(<<"NEAR", ToJson(NearRec(DeleteAt(r, i)))>>)
+      /\ \A i \in 1..Len(r) : \A x \in Insertions :
+            (x # <<r[i]>> /\ (i > 1 \/ x[1] # "NL")) => PrintT(<<"NEAR", ToJson(NearRec(ReplaceAt(r, i, x)))>>)
+      /\ \A i \in 1..(Len(r) + 1) : \A x \in Insertions :
+            (i > 1 \/ x[1] # "NL") => PrintT(<<"NEAR", ToJson(NearRec(InsertAt(r, i, x)))>>)
 =============================================================================
